@@ -28,6 +28,8 @@ import (
 //	sendfail s n    the next n stream sends of source s fail
 //	holdsend s      the next ack send of source s parks inside stream.Send (plugin not consuming)
 //	releasesend s   the parked send of source s goes on
+//	stop s          Source.Stop (the graceful stop signal: the plugin answers with the last position
+//	                it handed out; the engine reads no further records of s afterwards)
 //	teardown s      Source.Teardown
 type Step struct {
 	Op     string `json:"op"`
@@ -97,6 +99,7 @@ type srcCtl struct {
 	busy    chan struct{}
 	reading *pendingRead
 	tdStarted bool
+	stopped   bool
 	tdDone    chan struct{}
 }
 
@@ -309,7 +312,7 @@ func (w *World) rec(r int) opencdc.Record {
 func (w *World) read(s, k int) {
 	w.reap(s)
 	sc := w.srcs[s]
-	if sc.tdStarted || k <= 0 || w.isBusy(sc) {
+	if sc.tdStarted || sc.stopped || k <= 0 || w.isBusy(sc) {
 		return // (an Ack blocked behind the store holds the instance lock Read needs)
 	}
 	recs := make([]opencdc.Record, k)
@@ -319,7 +322,7 @@ func (w *World) read(s, k int) {
 		recs[i] = w.rec(sc.nextRec)
 		sc.nextRec++
 	}
-	sc.plug.Produce(recs)
+	sc.plug.Produce(recs, ids[len(ids)-1])
 	// Read takes no lock that the unchanged code holds across a store write; it still runs
 	// in the background so that a change which makes it block cannot hang the harness
 	pr := &pendingRead{ids: ids}
@@ -444,6 +447,16 @@ func (w *World) isBusy(sc *srcCtl) bool {
 	}
 }
 
+func (w *World) stop(s int) {
+	w.reap(s)
+	sc := w.srcs[s]
+	if sc.tdStarted || sc.stopped || w.isBusy(sc) {
+		return
+	}
+	sc.stopped = true
+	sc.busy = w.background(func() { _, _ = sc.src.Stop(context.Background()) })
+}
+
 func (w *World) teardown(s int) {
 	w.reap(s)
 	sc := w.srcs[s]
@@ -502,6 +515,10 @@ func (w *World) Do(st Step) {
 	case "releasesend":
 		if st.S >= 0 {
 			w.srcs[st.S].plug.ReleaseSend()
+		}
+	case "stop":
+		if st.S >= 0 {
+			w.stop(st.S)
 		}
 	case "teardown":
 		if st.S >= 0 {
